@@ -43,9 +43,30 @@ fn run_case(which: Impl, case: &WriteCase, p: &mut Part) {
     for pk in &case.packets {
         let enc = match real_encode(pk, case.compressed) {
             Enc::Ok(b) => b,
+            Enc::Err(_) => {
+                // a packet the encoder refuses with an error: the connection must refuse it too and carry on
+                // unharmed - nothing of it may reach the transport, and the frames that follow must be intact
+                match crate::ctx::guarded(|| conn.write(&h, pk.clone())) {
+                    Ok(Err(_)) => p.count("refused_packets_written", 1),
+                    Ok(Ok(())) => p.violation(format!("C06/{}/unencodable-packet-accepted", which.name()), format!("{} [{}]: write accepted a packet the encoder refuses", which.name(), case.label), json!({"label": case.label})),
+                    Err(pn) => p.violation(format!("C06/{}/write-panic", which.name()), format!("{} [{}]: write of a refused packet panicked: {pn}", which.name(), case.label), json!({"label": case.label})),
+                }
+                continue;
+            },
             _ => continue,
         };
-        match conn.write(&h, pk.clone()) {
+        let wrote = match crate::ctx::guarded(|| conn.write(&h, pk.clone())) {
+            Ok(r) => r,
+            Err(pn) => {
+                p.violation(
+                    format!("C06/{}/write-panic", which.name()),
+                    format!("{} [{}]: write of a packet the encoder accepts panicked: {pn}", which.name(), case.label),
+                    json!({"impl": which.name(), "mode": mode_name(case.compressed), "label": case.label, "packet": format!("{:?}", pk).chars().take(200).collect::<String>()}),
+                );
+                return;
+            },
+        };
+        match wrote {
             Ok(()) => expected.extend_from_slice(&enc),
             Err(_) => {
                 // an injected transport error ends the session's obligations; what was accepted so far must be a prefix
@@ -196,6 +217,20 @@ pub fn run(ctx: &mut Ctx) -> (&'static str, String, bool) {
                     }
                     plan.push(WAct::Accept(k));
                     left = left.saturating_sub(k);
+                }
+            }
+            // every fourth sequence also holds packets that are legal values but cannot be encoded (a 70 s camera
+            // transition, a 70 s ISI interval): they are refused, and must leave no trace
+            let mut packets = packets;
+            if i % 4 == 1 {
+                for _ in 0..1 + r.usize_below(2) {
+                    let bad = if r.chance(1, 2) {
+                        Packet::Cpp(insim::insim::Cpp { time: std::time::Duration::from_secs(70), ..Default::default() })
+                    } else {
+                        Packet::Isi(insim::insim::Isi { interval: std::time::Duration::from_secs(70), ..Default::default() })
+                    };
+                    let at = r.usize_below(packets.len() + 1);
+                    packets.insert(at, bad);
                 }
             }
             for which in IMPLS {
